@@ -203,11 +203,11 @@ def execute(scn):
         st.link.budget_per_fault = 10
     o = scn["opts"]
     lib = W.lib_exceptions()
-    kw, calls = W.make_handler(o.get("handler"))
+    kwf, calls = W.make_handler(o.get("handler"))
     viol = None
     events = []
     try:
-        rd = RTCMReader(st.obj, validate=o["validate"], quitonerror=o["quitonerror"], labelmsm=o.get("labelmsm", 1), parsed=o.get("parsed", True), bufsize=scn.get("bufsize", 4096), encoding=scn.get("encoding", 0), **kw)
+        rd = RTCMReader(st.obj, validate=o["validate"], quitonerror=o["quitonerror"], labelmsm=o.get("labelmsm", 1), parsed=o.get("parsed", True), bufsize=scn.get("bufsize", 4096), encoding=scn.get("encoding", 0), **kwf())
     except SimBudgetExceeded as e:
         viol = violation(PROP, "non-termination", str(e))
         rd = None
